@@ -94,3 +94,8 @@ for _pid, _p in PROPERTIES.items():
 for _pid in ("C07", "C08", "C13", "C16"):
     if wiring.rule_env_factory not in PROPERTIES[_pid]["rules"]:
         PROPERTIES[_pid]["rules"].append(wiring.rule_env_factory)
+
+# the incomplete-game object is the substrate of almost every property: under a property that does not run the G rules itself they are evaluated
+# on game.py and reported for the methods that property's code can reach (game.rule_game_substrate; no-op when nothing is reachable)
+for _pid, _p in PROPERTIES.items():
+    _p["rules"].append(game.rule_game_substrate)
